@@ -285,7 +285,7 @@ def main(argv: list[str] | None = None) -> int:
                     violations.append(res)
             else:
                 res["verdict"] = "harness_error"
-                res["detail"] = "counterexample did not reproduce on replay: " + json.dumps(rp, default=str)[:600]
+                res["detail"] = "counterexample did not reproduce on replay: " + json.dumps(rp, default=str)[:600] + " | under tracing: " + json.dumps(res["stats"].get("extra", {}).get("last_fail"), default=str)[:900]
                 harness_errors.append(res)
         else:
             harness_errors.append(res)
